@@ -23,10 +23,23 @@ def run_program(prog: dict) -> list[dict]:
     # the spare table lives on the loader lattice
     T = loaders._molecules(prog["init"]["T"], "single")
     events = []
+    S = None          # the object a fork left behind
     for step, op in enumerate(prog["prog"]):
         preL, preT = loaders.project(L), loaders.project_mol(T)
-        res, obs, groups, groups2, err, extra = loaders.execute(op, L, T, seed=prog.get("seed", 0) + step)
+        preS = loaders.project(S) if S is not None else loaders.NOLDR
+        if op["name"] == "swap":
+            res, obs, groups, groups2, err, extra = L, [], [], [], "", dict(codes=[], avg_n=0)
+        else:
+            res, obs, groups, groups2, err, extra = loaders.execute(op, L, T, seed=prog.get("seed", 0) + step)
+        sobs = []
+        if S is not None and S.count() > 0 and preS["bin"] == 1:
+            try:
+                sobs = loaders.observe(S, "asnumpy")[0]
+            except Exception as e:  # noqa: BLE001
+                sobs = [dict(img=-2, uid=-2)]
         out = dict(
+            S=loaders.project(S) if S is not None else loaders.NOLDR,
+            sobs=sobs,
             L=loaders.project(L),
             T=loaders.project_mol(T),
             res=loaders.project(res) if res is not None else loaders.NOLDR,
@@ -37,8 +50,12 @@ def run_program(prog: dict) -> list[dict]:
             codes=extra["codes"],
             avg_n=extra["avg_n"],
         )
-        events.append(dict(id=f"{prog['pid']}:{step}", op=op, L=preL, T=preT, out=out))
-        if not err and res is not None and op["name"] in ("derive", "add_tomogram"):
+        events.append(dict(id=f"{prog['pid']}:{step}", op=op, L=preL, T=preT, S=preS, out=out))
+        if op["name"] == "swap":
+            L, S = S, L
+        elif not err and res is not None and op["name"] == "fork":
+            S, L = L, res
+        elif not err and res is not None and op["name"] in ("derive", "add_tomogram"):
             L = res
     return events
 
@@ -99,6 +116,19 @@ def run(rep: engine.Report, tier: str, seed: int):
     one = engine.stratified_sample(
         one, lambda p: (p["prog"][0]["name"], json.dumps(p["prog"][0].get("how") or p["prog"][0].get("via") or p["prog"][0].get("gop"), sort_keys=True), p["init"]["L"]["kind"], _interleaved(p["init"]["L"]), _gap(p["init"]["L"])), budget, seed)
     _judge(rep, one, "steps")
+    # fork programmes: fork [+ swap], an operation on the receiver, judged on both objects
+    fk = rep.add_tlc(engine.tlc("LdrMachine", "EMIT_C03f", workers=1, timeout=1800, tag="fork"))
+    seen, forks = set(), []
+    for p in fk.emitted:
+        k = json.dumps(p, sort_keys=True)
+        if k not in seen and len(p["prog"]) == 3:
+            seen.add(k)
+            forks.append(dict(pid=f"f{len(forks)}", init=p["init"], prog=p["prog"], seed=seed))
+    if not forks:
+        raise engine.MachineryError("EMIT_C03f emitted nothing")
+    nforks = len(forks)
+    forks = engine.stratified_sample(forks, lambda p: (p["prog"][0]["how"], p["prog"][1]["name"], p["prog"][2]["name"], _gap(p["init"]["L"])), 600 if quick else len(forks), seed)
+    _judge(rep, forks, "fork")
     num = 300 if quick else 3000
     sim = rep.add_tlc(engine.tlc("LdrMachine", "SIM_C03", workers=1,
                                  extra=["-simulate", f"num={num}", "-depth", "7", "-seed", str(seed + 5)], tag="sim"))
@@ -114,7 +144,9 @@ def run(rep: engine.Report, tier: str, seed: int):
     rep.rule = (
         "events = real loader calls recorded while running TLC-generated programs: every (loader state, operation) pair "
         "explored by TLC at depth 1 from all initial loaders (batch 2+2, batch 1+2, single 3, empty; k free in 0..2) "
-        f"(stratified to {len(one)}), and {len(progs)} TLC-simulated 6-step behaviours; operations: add_tomogram, derive via "
+        f"(stratified to {len(one)}), {len(forks)} of {nforks} fork programmes (a second object derived without new molecules by copy/replace/"
+        f"binning(1)/reshape, optionally swapped, then registrations/derivations/observations: neither object may change the other), "
+        f"and {len(progs)} TLC-simulated 6-step behaviours; operations: add_tomogram, derive via "
         "head/tail/filter/sample/sort/subset/copy/binning, observe via asnumpy/load(i)/load_iter/dask/align/score/apply/"
         "landscape (probe model), groupby with none/align/head/tail/filter/sample iterated twice; "
         "non-trivial = distinct (operation, loader state)"
